@@ -2,18 +2,22 @@
 Model of the BINARY OPERATORS BETWEEN TWO RESULT VECTORS of metric queries (C09, "arithmetic between vectors matches
 label sets"), mirroring
 
-  pkg/segment/segexecution.go            : HelperQueryArithmeticAndLogical (243-498), the vector–vector branch
-        WITHOUT on()/ignoring() (`hasVectorMatchingOp = false`) and with `opLabelsDoNotNeedToMatch = false`
-        (lines 430-493): the label part of a group id is cut out by SLICING the id at len(MetricName)
-        (`lGroupID[len(resultLHS.MetricName):]`), the partner id is `resultRHS.MetricName + labelStr`;
+  pkg/segment/segexecution.go            : HelperQueryArithmeticAndLogical, the vector–vector branch WITHOUT
+        on()/ignoring() (`hasVectorMatchingOp = false`) and with `opLabelsDoNotNeedToMatch = false`, WITH the pending
+        repair c09-15: the label part of a group id is cut out by SLICING the id at len(MetricName)
+        (`lGroupID[len(resultLHS.MetricName):]`) and brought into a canonical form (canonicalLabelSet: leading "{"
+        dropped, split on ",", items sorted, empty items dropped, joined with ","); the partner is the right id whose
+        label part has the same canonical form (the smallest such id), `unless` deletes the left ids of a canonical
+        label set, `or` copies the right ids whose canonical label set no left id has.  Before the repair the id STRINGS
+        were compared (`resultRHS.MetricName + labelStr`): `partnerIdOld`, counterexamples in Props/C09.lean;
   pkg/integrations/prometheus/utils/…    : SetFinalResult (83-200) with swapped = false, ConstantOp = false.
 
 A group id is  <metric> "{" k1 ":" v1 "," … (Model/Promql.lean `seriesIdOf`); here it is just a byte string, and a
 result vector is a metric name plus a map id → (timestamp → value) — the model does what the code does for ANY ids,
 also ids that do not start with the metric name or are shorter than it.  Values are integers (the correspondence
-run uses integer-valued float64, |v| < 2^40): + - * are exact, / is the correctly rounded float64 quotient
-(`Promql.f64div`), % is math.Mod (sign of the dividend), ^ is exact for exponents 0..4 and |base| ≤ 8192; the Oracle prints a fixed token
-for the remaining input pairs (x % 0, exponent outside 0..4 or |base| > 8192) and so does the harness, by the INPUTS.
+run uses integer-valued float64, |v| < 2^20): + - * are exact, / is the correctly rounded float64 quotient
+(`Promql.f64div`), % is math.Mod (sign of the dividend), ^ is exact for exponents 0..4 and |base| ≤ 8192; the Oracle
+rejects the remaining pow inputs and so does the harness.
 A timestamp of the left series that the partner series does not have reads the partner as 0 (Go map zero value):
 mirrored as it is (what PromQL says there is a question for the end-to-end specification, not for this kernel).
 
@@ -50,9 +54,45 @@ structure Res where
 def lookupPts (v : Vec) (id : Str) : Option Pts := (v.find? (·.1 == id)).map (·.2)
 def ptAt (p : Pts) (t : Nat) : Int := ((p.find? (·.1 == t)).map (·.2)).getD 0
 
-/-- `labelStr` and `rGroupID` of lines 446-450: slice the id at len(MetricName) when it is long enough -/
+/-- `id[len(MetricName):]` when the id is long enough -/
 def cutLabel (name id : Str) : Str := if id.length ≥ name.length then id.drop name.length else []
-def partnerId (lname rname lid : Str) : Str := if lid.length ≥ lname.length then rname ++ cutLabel lname lid else []
+
+/-- the partner id BEFORE the repair c09-15: the right metric name followed by the very same label string -/
+def partnerIdOld (lname rname lid : Str) : Str := if lid.length ≥ lname.length then rname ++ cutLabel lname lid else []
+
+/-- bytewise lexicographic ≤ (Go string comparison) -/
+def strLe : Str → Str → Bool
+  | [], _ => true
+  | _ :: _, [] => false
+  | a :: r, b :: s => a < b || (a == b && strLe r s)
+
+def insertStr (x : Str) : List Str → List Str
+  | [] => [x]
+  | y :: ys => if strLe x y then x :: y :: ys else y :: insertStr x ys
+
+/-- sort.Strings -/
+def sortStrs (l : List Str) : List Str := l.foldr insertStr []
+
+/-- canonicalLabelSet: TrimPrefix "{", Split ",", sort, drop the empty items (they sort first), Join "," -/
+def canonLabel (s : Str) : Str :=
+  let body := match s with
+    | c :: r => if c = cBrace then r else s
+    | [] => []
+  joinWith cComma ((sortStrs (splitOn cComma body)).dropWhile (· == []))
+
+/-- the canonical label set under which an id of a vector is filed ("" for an id shorter than the metric name) -/
+def labelSetOf (name id : Str) : Str := if id.length ≥ name.length then canonLabel (cutLabel name id) else []
+
+/-- `rGroupIDOfLabelSet`: the smallest right id (long enough) with this canonical label set -/
+def partnerOf (r : Str × List Str) (c : Str) : Option Str :=
+  ((r.2.filter (fun rid => rid.length ≥ r.1.length && canonLabel (cutLabel r.1 rid) == c)).foldl
+    (fun (acc : Option Str) rid => match acc with
+      | none => some rid
+      | some p => if strLe p rid then some p else some rid) none)
+
+/-- `rGroupID` of the left loop: the partner id, "" when there is none or the left id is shorter than its metric name -/
+def partnerId (lname : Str) (r : Str × List Str) (lid : Str) : Str :=
+  if lid.length ≥ lname.length then (partnerOf r (canonLabel (cutLabel lname lid))).getD [] else []
 
 /-- SetFinalResult for one (timestamp, left value, right value): `none` = the map entry is not written -/
 def setFinal (op : Op) (retBool : Bool) (x y : Int) : Option Val :=
@@ -80,33 +120,36 @@ def outInsert (o : Out) (id : Str) (pts : List (Nat × Val)) : Out :=
 
 def hasId (v : Vec) (id : Str) : Bool := (lookupPts v id).isSome
 
-/-- the loop over the left vector (lines 431-467): the ids of a Go map are distinct, so every kept id gets its own
+def rKey (r : Res) : Str × List Str := (r.name, r.series.map (·.1))
+
+/-- the loop over the left vector: the ids of a Go map are distinct, so every kept id gets its own
     entry; an id without partner is skipped unless the operator is or / unless -/
 def leftPass (op : Op) (retBool : Bool) (l r : Res) : Out :=
   l.series.filterMap (fun (lid, pl) =>
-    let rid := partnerId l.name r.name lid
+    let rid := partnerId l.name (rKey r) lid
     if hasId r.series rid || op == .or || op == .unless then
       let rp := (lookupPts r.series rid).getD []
       some (lid, pl.filterMap (fun (t, x) => (setFinal op retBool x (ptAt rp t)).map (fun v => (t, v))))
     else none)
 
-/-- the label parts of the left ids (`labelStrSet`, only filled for or / unless) -/
-def leftLabelParts (l : Res) : List Str := l.series.map (fun e => cutLabel l.name e.1)
+/-- the canonical label sets of the left ids (`lGroupIDsOfLabelSet`, only filled for or / unless) -/
+def leftLabelSets (l : Res) : List Str := l.series.map (fun e => labelSetOf l.name e.1)
 
-/-- `unless`, loop over the right vector (lines 469-479): `delete(finalResult, lName + labelStr)` -/
-def unlessDeleted (l r : Res) : List Str := r.series.map (fun e => l.name ++ cutLabel r.name e.1)
+/-- the canonical label sets of the right ids -/
+def rightLabelSets (r : Res) : List Str := r.series.map (fun e => labelSetOf r.name e.1)
 
-/-- `or`, loop over the right vector (lines 480-491): a right series whose label part no left id has is copied
-    under its own id (`finalResult[rGroupID] = …`, replacing an entry of that very id if there is one) -/
+/-- `or`, loop over the right vector: a right series whose canonical label set no left id has is copied under its own
+    id (`finalResult[rGroupID] = …`, replacing an entry of that very id if there is one) -/
 def orPass (l r : Res) (o : Out) : Out :=
-  (r.series.filter (fun e => !(leftLabelParts l).contains (cutLabel r.name e.1))).foldl
+  (r.series.filter (fun e => !(leftLabelSets l).contains (labelSetOf r.name e.1))).foldl
     (fun o e => outInsert o e.1 (e.2.map (fun (t, y) => (t, Val.num (y : Rat))))) o
 
-/-- HelperQueryArithmeticAndLogical, vector–vector, no vector matching clause -/
+/-- HelperQueryArithmeticAndLogical, vector–vector, no vector matching clause; `unless`: every left id whose canonical
+    label set some right id has is deleted -/
 def binop (op : Op) (retBool : Bool) (l r : Res) : Out :=
   let o := leftPass op retBool l r
   match op with
-  | .unless => o.filter (fun e => !(unlessDeleted l r).contains e.1)
+  | .unless => o.filter (fun e => !(rightLabelSets r).contains (labelSetOf l.name e.1))
   | .or => orPass l r o
   | _ => o
 
